@@ -210,10 +210,9 @@ def normalise (cls : String) (pos : List Op) (kw : List (String × Op)) : Option
       | .node c a _ _ _ _ =>
         if c = "TriangularLinearOperator" then
           (match a with | [inner] => some (inner :: rest, kw) | _ => none)
-        else if triangularLike.contains c then none      -- `tensor._tensor` AttributeError (D02)
         else if c = "BatchRepeatLinearOperator" then
           (match a with
-           | [b] => if b.cls = "TriangularLinearOperator" then some (x :: rest, kw) else none
+           | [b] => if triangularLike.contains b.cls then some (x :: rest, kw) else none
            | _ => none)
         else some (x :: rest, kw)
     | [] => none
@@ -461,9 +460,9 @@ def sortedKeys : List String → Bool
   | [_] => true
   | x :: y :: r => decide (x < y) && sortedKeys (y :: r)
 
-/-- the single argument of `x` is a TriangularLinearOperator -/
+/-- the single argument of `x` is a TriangularLinearOperator (or one of its subclasses) -/
 def subTriOp : Op → Bool
-  | .node _ [b] _ _ _ _ => b.cls = "TriangularLinearOperator"
+  | .node _ [b] _ _ _ _ => triangularLike.contains b.cls
   | _ => false
 
 /-- syntactic normal form of the class specific normalisation (depends only on classes, never on tensors) -/
@@ -474,7 +473,7 @@ def normalForm (cls : String) (args : List Op) (kw : List (String × Op)) : Bool
   else if cls = "TriangularLinearOperator" then
     (match args with
      | x :: _ =>
-       x.cls != "#tensor" && x.cls != "#value" && !triangularLike.contains x.cls &&
+       x.cls != "#tensor" && x.cls != "#value" && x.cls != "TriangularLinearOperator" &&
        (x.cls != "BatchRepeatLinearOperator" || subTriOp x)
      | [] => false)
   else if cls = "CatLinearOperator" then
